@@ -283,7 +283,9 @@ def run(tier: str) -> Run:
             wi = WitnessInterp(repo, wm)
             kind, ch = construct_chopper(wi, wm, cls, (0,), (60,), freq=sign * 14 * q)
             if kind != 'return':
-                raise AnalysisError(f'cannot construct the reference chopper: {ch}')
+                # a valid one-slit chopper is refused: reported (once) as a finding of the validation rule
+                badq.setdefault('accepted ratio', {'frequency/pulse_frequency': str(sign * q), 'problem': f'a chopper with one slit 0..60 deg cannot be constructed: {ch}'})
+                continue
             fp = sym_scalar(wi, wm, 'fp', Unit.named('Hz'), 14, positive=True)
             kind, res = call(wi, sfi, [], {'pulse_frequency': fp}, bound=ch)
             if kind == 'return':
